@@ -24,6 +24,25 @@ EVID = os.environ.get("VERIF_EVIDENCE_DIR") or os.path.join(ROOT, "evidence")
 REPLAYS = os.path.join(EVID, "replays")
 
 EXIT_OK, EXIT_VIOLATION, EXIT_INCONCLUSIVE = 0, 1, 2
+ESCAPE_LABEL = "no undocumented exception escapes a library call made by the harness"
+
+
+def raised_in_repo(exc, src):
+    """the innermost frames of the traceback: raised by repository code (or by the stdlib
+    on its behalf), not by a proxy / engine module"""
+    tb = exc.__traceback__
+    files = []
+    while tb is not None:
+        files.append(tb.tb_frame.f_code.co_filename)
+        tb = tb.tb_next
+    here = os.path.dirname(os.path.abspath(__file__))
+    last_repo = max([i for i, f in enumerate(files) if f.startswith(src)] or [-1])
+    if last_repo < 0:
+        return False
+    return not any(f.startswith(here) for f in files[last_repo + 1 :])
+
+
+WIRE_LABEL = "bytes produced by the code under test follow the SOME/IP / SOME/IP-SD layout as read by the independent reader"
 
 _SYM = {}
 
@@ -110,9 +129,21 @@ def _work(job):
         hm = harness_module(prop)
         fn0 = hm.SCENARIOS[case["h"]]
 
+        from oracle.wire import WireError
+
         def fn(E):
             _LogGuard.records.clear()
-            fn0(E, M, case)
+            try:
+                fn0(E, M, case)
+            except WireError as exc:
+                # the independent reader rejected bytes the code under test produced
+                E.require(False, WIRE_LABEL, {"error": str(exc)})
+            except Exception as exc:  # noqa: BLE001
+                if not raised_in_repo(exc, loader.src_dir()):
+                    raise
+                # an exception nobody documents left a library call the harness made; it
+                # counts only if the concrete re-run on the unlowered modules raises too
+                E.require(False, ESCAPE_LABEL, {"exception": repr(exc)[:300]})
             if E.symbolic and not E.dead:
                 for exc in _LogGuard.records:
                     if isinstance(exc, (TypeError, AttributeError, NotImplementedError)) and "ym" in repr(exc):
